@@ -26,6 +26,7 @@ type Leaf struct {
 	B    *types.Basic // for LInt
 	Path string
 	Str  bool // LObj of a string (lives in the immutable string store)
+	PT   string // for reference leaves: the static pointer/slice type (cells of different types never overlap)
 }
 
 type Layout struct {
@@ -99,10 +100,12 @@ func buildLayout(T types.Type, path string, l *Layout) {
 			l.Leaves = append(l.Leaves, Leaf{K: LOpaque, Path: path})
 		}
 	case *types.Pointer:
-		l.Leaves = append(l.Leaves, Leaf{K: LObj, Path: path + ".obj"}, Leaf{K: LOff, Path: path + ".off"})
+		pt := t.String()
+		l.Leaves = append(l.Leaves, Leaf{K: LObj, Path: path + ".obj", PT: pt}, Leaf{K: LOff, Path: path + ".off", PT: pt})
 	case *types.Slice:
-		l.Leaves = append(l.Leaves, Leaf{K: LObj, Path: path + ".obj"}, Leaf{K: LOff, Path: path + ".off"},
-			Leaf{K: LLen, Path: path + ".len"}, Leaf{K: LCap, Path: path + ".cap"})
+		pt := t.String()
+		l.Leaves = append(l.Leaves, Leaf{K: LObj, Path: path + ".obj", PT: pt}, Leaf{K: LOff, Path: path + ".off", PT: pt},
+			Leaf{K: LLen, Path: path + ".len", PT: pt}, Leaf{K: LCap, Path: path + ".cap", PT: pt})
 	case *types.Struct:
 		for i := 0; i < t.NumFields(); i++ {
 			buildLayout(t.Field(i).Type(), path+"."+t.Field(i).Name(), l)
